@@ -38,6 +38,12 @@ def declarations():
         out.append((f"step inp {p}", ("inp", p), lambda ci, p=p: opx.step_req(f"i{ci}{p}", [p])))
         out.append((f"step out {p}", ("out", p), lambda ci, p=p: opx.step_req(f"o{ci}{p}", [], [p])))
         out.append((f"step vol {p}", ("vol", p), lambda ci, p=p: opx.step_req(f"v{ci}{p}", [], [], [p])))
+        if p in ("a", "d/c"):
+            # the same claims by steps with a working directory (their label carries '# wd=...')
+            out.append((f"step out {p} wd", ("out", p), lambda ci, p=p: (
+                "define_step", "$job", f"w{ci}{p}", [], [], [p], [], "d/", 32, {}, False, None, None)))
+            out.append((f"step vol {p} wd", ("vol", p), lambda ci, p=p: (
+                "define_step", "$job", f"x{ci}{p}", [], [], [], [p], "d/s/", 32, {}, False, None, None)))
         out.append((f"amend inp {p}", ("inp", p), lambda ci, p=p: ("amend_step", "$job", [p], [], [], [])))
         out.append((f"amend out {p}", ("out", p), lambda ci, p=p: ("amend_step", "$job", [], [], [p], [])))
         out.append((f"amend vol {p}", ("vol", p), lambda ci, p=p: ("amend_step", "$job", [], [], [], [p])))
